@@ -80,6 +80,15 @@ CLAIMED = {
             "parents declared first, index file = data file without raw data and with TDSh (CRC per segment).",
             "Trusted: TLC, independent structural parser (harness/parser.py).",
             "DESIGN.md 3.2, 5/C08"),
+    "C09": ("TLA+ TdmsIndexFile over TdmsTruncate/TdmsLayout: TLC checks that the metadata walk over the index stream with "
+            "position translation equals the walk over the data file for every file and cut; every enumerated file "
+            "replayed on disk with and without index (encoder- and TdmsWriter-produced) and index-only",
+            "Model checking of the position-translation arithmetic (IndexTransparent, IndexPositions, "
+            "IndexOnlyComplete) plus spec->code conformance: read / open / read_metadata give identical projections "
+            "with and without the index; the index alone (path and stream) gives the same metadata and every data "
+            "read raises.",
+            "Trusted: TLC, TdmsLayout arithmetic, encoder's index twin.",
+            "DESIGN.md 3.6, 5/C09"),
     "C10": ("TLA+ TdmsDefragment (defragment as derived writer behaviour over TdmsSegments): TLC checks DefragPreserves "
             "over all enumerated source files; every source file run through the real TdmsWriter.defragment and "
             "compared with source and with the specification's view of the copy",
